@@ -430,6 +430,13 @@ def run(tier):
         add("entity", "levels", {"entry": "xml_buffer", "text": entity_doc(L), "timeout": 120}, {"levels": L, "bytes": len(entity_doc(L)), "backend": "document"})
     # ---- 5c. production zoo: inputs that together reduce by (nearly) every production of the grammar, through every back end
     zoo_part(c, add, gen, scaffold_xml, quick, lx)
+    # the diagnostic zoo: texts that make the builders, the type checker and the query builders report or throw (their error paths), document and pretty back end
+    import zoo as _zoo2
+    for sj in _zoo2.semantic_jobs():
+        zid = sj.pop("zoo")
+        add("semzoo", zid, dict(sj, dump=False), {"zoo": zid, "text": sj["text"][-300:], "queries": sj.get("queries", [])[:3], "backend": "document"})
+        if "queries" not in sj:
+            add("semzoo", zid, dict(sj, builder="pretty", dump=False), {"zoo": zid, "text": sj["text"][-300:], "backend": "pretty"})
     # ---- run
     # scaling probes run against the plain build: sanitizer frames are an order of magnitude larger than the library's own
     sjobs = [j for j in jobs if meta[j["id"]][0] in ("scale", "entity")]
@@ -509,6 +516,13 @@ def run(tier):
     # scan ends), scanned by the real scanner in the sanitizer build
     import lexconf
     nlex += lexconf.run(c, quick, "C01", only=("all", "all_old", "all_query", "numbers", "comment"), variant="asan")
+    # which of the library's diagnostics the inputs of this run reached: the error paths of builder callbacks, type checker, reader and scanner are code too
+    src_msgs = vf.source_messages()
+    seen = {m.rstrip("_") for m in vf.SEEN_MESSAGES}
+    hit = sorted(m for m in src_msgs if any(s.startswith(m) for s in seen))
+    c.cov["diagnostics_in_source"] = len(src_msgs)
+    c.cov["diagnostics_reached"] = len(hit)
+    c.cov["diagnostics_not_reached"] = sorted(src_msgs - set(hit))
     c.cov["traces_validated_against_impl"] = len(jobs) + nlex
     c.cov["evaluations"] = len(jobs) + nlex
     c.cov["distinct_nontrivial"] = len(jobs)
